@@ -121,6 +121,222 @@ theorem unifyM_sound {a b : Term} {δ : Nat → Term} (h : unifyM a b = some δ)
         exact unifyE_sound _ _ δ hr (a, b) (by simp)
       · cases h
 
+/-! ### unification is complete: the result is a most general unifier, failure means not unifiable -/
+
+mutual
+  theorem size_subst_ge (σ : Nat → Term) (x : Nat) : (t : Term) → occursT x t = true →
+      (σ x).size ≤ (substT σ t).size
+    | .var v => by
+      intro h; simp only [occursT, beq_iff_eq] at h; subst h; simp [substT]
+    | .app _ as => by
+      intro h; simp only [occursT] at h
+      have := sizeA_subst_ge σ x as h
+      simp only [substT, Term.size]; omega
+    | .atom _ => by simp [occursT]
+    | .int _ => by simp [occursT]
+    | .flt _ => by simp [occursT]
+    | .str _ => by simp [occursT]
+  theorem sizeA_subst_ge (σ : Nat → Term) (x : Nat) : (as : Args) → occursA x as = true →
+      (σ x).size ≤ (substA σ as).size
+    | .nil => by simp [occursA]
+    | .cons t ts => by
+      intro h
+      simp only [occursA, Bool.or_eq_true] at h
+      simp only [substA, Args.size]
+      rcases h with h | h
+      · have := size_subst_ge σ x t h; omega
+      · have := sizeA_subst_ge σ x ts h; omega
+end
+
+/-- occurs check: a variable cannot be unified with a proper superterm -/
+theorem occurs_not_unifiable {x : Nat} {t : Term} (hocc : occursT x t = true) (hne : ∀ v, t ≠ .var v)
+    (σ : Nat → Term) : σ x ≠ substT σ t := by
+  intro h
+  cases t with
+  | var v => exact hne v rfl
+  | app g as =>
+    simp only [occursT] at hocc
+    have := sizeA_subst_ge σ x as hocc
+    have h2 := congrArg Term.size h
+    simp only [substT, Term.size] at h2
+    omega
+  | atom _ => simp [occursT] at hocc
+  | int _ => simp [occursT] at hocc
+  | flt _ => simp [occursT] at hocc
+  | str _ => simp [occursT] at hocc
+
+theorem subst_bind1_absorb {σ : Nat → Term} {x : Nat} {t : Term} (h : σ x = substT σ t) (u : Term) :
+    substT σ (substT (bind1 x t) u) = substT σ u := by
+  rw [substT_comp]
+  apply substT_congr
+  intro v _
+  by_cases hv : v = x
+  · subst hv; simp [bind1, h]
+  · simp [bind1, hv, substT]
+
+theorem unifies_zipArgs (σ : Nat → Term) : (as bs : Args) → substA σ as = substA σ bs →
+    Unifies σ (zipArgs as bs)
+  | .nil, _, _ => by intro p hp; simp [zipArgs] at hp
+  | .cons _ _, .nil, _ => by intro p hp; simp [zipArgs] at hp
+  | .cons a as, .cons b bs, h => by
+    simp only [substA, Args.cons.injEq] at h
+    intro p hp
+    simp only [zipArgs, List.mem_cons] at hp
+    rcases hp with rfl | hp
+    · exact h.1
+    · exact unifies_zipArgs σ as bs h.2 p hp
+
+theorem length_eq_of_substA_eq (σ : Nat → Term) {as bs : Args} (h : substA σ as = substA σ bs) :
+    as.length = bs.length := by
+  have := congrArg Args.length h
+  simpa [length_substA] using this
+
+/-- partial correctness of `unifyE` (whenever the fuel suffices): a returned substitution is more
+    general than every unifier (`σ = σ ∘ δ`), and `some none` means there is no unifier -/
+theorem unifyE_complete : (f : Nat) → (eqs : List (Term × Term)) →
+    (∀ δ, unifyE f eqs = some (some δ) → ∀ σ, Unifies σ eqs → ∀ u, substT σ (substT δ u) = substT σ u) ∧
+    (unifyE f eqs = some none → ∀ σ, ¬ Unifies σ eqs)
+  | 0, _ => by simp [unifyE]
+  | _ + 1, [] => by
+    refine ⟨?_, by simp [unifyE]⟩
+    intro δ h σ _ u
+    simp only [unifyE, Option.some.injEq] at h
+    subst h; simp
+  | f + 1, (a, b) :: rest => by
+    have hhead : ∀ {σ : Nat → Term}, Unifies σ ((a, b) :: rest) → substT σ a = substT σ b ∧ Unifies σ rest :=
+      fun hu => ⟨hu (a, b) (by simp), fun p hp => hu p (by simp [hp])⟩
+    -- the elimination step `x := t`
+    have helimA : ∀ x t, (∀ v, t ≠ .var v ∨ v ≠ x) → occursT x t = true → ∀ σ : Nat → Term, σ x ≠ substT σ t := by
+      intro x t hxt hocc σ
+      have hne : ∀ v, t ≠ .var v := by
+        intro v hv
+        subst hv
+        simp only [occursT, beq_iff_eq] at hocc
+        rcases hxt v with h | h
+        · exact h rfl
+        · exact h hocc
+      exact occurs_not_unifiable hocc hne σ
+    have helimB : ∀ x t,
+        (∀ δ, (match unifyE f (rest.map fun p => (substT (bind1 x t) p.1, substT (bind1 x t) p.2)) with
+            | some (some δ') => some (some fun v => substT δ' (bind1 x t v))
+            | r => r) = some (some δ) →
+          ∀ σ, σ x = substT σ t → Unifies σ rest → ∀ u, substT σ (substT δ u) = substT σ u) ∧
+        ((match unifyE f (rest.map fun p => (substT (bind1 x t) p.1, substT (bind1 x t) p.2)) with
+            | some (some δ') => some (some fun v => substT δ' (bind1 x t v))
+            | r => r) = some none →
+          ∀ σ, σ x = substT σ t → ¬ Unifies σ rest) := by
+      intro x t
+      have ih := unifyE_complete f (rest.map fun p => (substT (bind1 x t) p.1, substT (bind1 x t) p.2))
+      have hrest : ∀ σ, σ x = substT σ t → Unifies σ rest →
+          Unifies σ (rest.map fun p => (substT (bind1 x t) p.1, substT (bind1 x t) p.2)) := by
+        intro σ hσ hu p hp
+        obtain ⟨q, hq, rfl⟩ := List.mem_map.mp hp
+        simp only [subst_bind1_absorb hσ]
+        exact hu q hq
+      constructor
+      · intro δ hδ σ hσ hu u
+        split at hδ
+        · rename_i δ' hδ'
+          cases hδ
+          have := ih.1 δ' hδ' σ (hrest σ hσ hu)
+          rw [← substT_comp, this, subst_bind1_absorb hσ]
+        · rename_i r' hr'
+          exact (hr' δ hδ).elim
+      · intro hnone σ hσ hu
+        split at hnone
+        · cases hnone
+        · exact ih.2 hnone σ (hrest σ hσ hu)
+    have helim : ∀ x t, (∀ v, t ≠ .var v ∨ v ≠ x) →
+        (∀ δ, (if occursT x t = true then some none else
+            (match unifyE f (rest.map fun p => (substT (bind1 x t) p.1, substT (bind1 x t) p.2)) with
+              | some (some δ') => some (some fun v => substT δ' (bind1 x t v))
+              | r => r)) = some (some δ) →
+          ∀ σ, σ x = substT σ t → Unifies σ rest → ∀ u, substT σ (substT δ u) = substT σ u) ∧
+        ((if occursT x t = true then some none else
+            (match unifyE f (rest.map fun p => (substT (bind1 x t) p.1, substT (bind1 x t) p.2)) with
+              | some (some δ') => some (some fun v => substT δ' (bind1 x t v))
+              | r => r)) = some none →
+          ∀ σ, σ x = substT σ t → ¬ Unifies σ rest) := by
+      intro x t hxt
+      by_cases hocc : occursT x t = true
+      · simp only [hocc, if_true]
+        exact ⟨fun δ h => (by cases h), fun _ σ hσ _ => helimA x t hxt hocc σ hσ⟩
+      · simp only [hocc]
+        exact helimB x t
+    clear helimA helimB
+    unfold unifyE
+    simp only
+    split
+    · -- var, var
+      rename_i x y
+      split
+      · rename_i hxy; subst hxy
+        have ih := unifyE_complete f rest
+        exact ⟨fun δ h σ hu u => ih.1 δ h σ (hhead hu).2 u, fun h σ hu => ih.2 h σ (hhead hu).2⟩
+      · rename_i hxy
+        have := helim x (.var y) (fun v => by
+          by_cases hv : v = x
+          · left; intro h; simp only [Term.var.injEq] at h; exact hxy (hv ▸ h.symm)
+          · right; exact hv)
+        exact ⟨fun δ h σ hu u => this.1 δ h σ (by simpa [substT] using (hhead hu).1) (hhead hu).2 u,
+          fun h σ hu => this.2 h σ (by simpa [substT] using (hhead hu).1) (hhead hu).2⟩
+    · -- var, t
+      rename_i x hnv
+      have := helim x b (fun v => Or.inl (fun h => hnv v h))
+      exact ⟨fun δ h σ hu u => this.1 δ h σ (by simpa [substT] using (hhead hu).1) (hhead hu).2 u,
+        fun h σ hu => this.2 h σ (by simpa [substT] using (hhead hu).1) (hhead hu).2⟩
+    · -- t, var
+      rename_i x hnv
+      have := helim x a (fun v => Or.inl (fun h => hnv v h))
+      exact ⟨fun δ h σ hu u => this.1 δ h σ (by simpa [substT] using (hhead hu).1.symm) (hhead hu).2 u,
+        fun h σ hu => this.2 h σ (by simpa [substT] using (hhead hu).1.symm) (hhead hu).2⟩
+    · -- app, app
+      rename_i g as g' bs
+      clear helim
+      split
+      · rename_i hg
+        have ih := unifyE_complete f (zipArgs as bs ++ rest)
+        have hu' : ∀ σ, Unifies σ ((Term.app g as, Term.app g' bs) :: rest) → Unifies σ (zipArgs as bs ++ rest) := by
+          intro σ hu p hp
+          have h1 := (hhead hu).1
+          simp only [substT, Term.app.injEq] at h1
+          rcases List.mem_append.mp hp with hp | hp
+          · exact unifies_zipArgs σ as bs h1.2 p hp
+          · exact (hhead hu).2 p hp
+        exact ⟨fun δ h σ hu u => ih.1 δ h σ (hu' σ hu) u, fun h σ hu => ih.2 h σ (hu' σ hu)⟩
+      · rename_i hg
+        refine ⟨fun δ h => (by cases h), ?_⟩
+        intro _ σ hu
+        have h1 := (hhead hu).1
+        simp only [substT, Term.app.injEq] at h1
+        exact hg ⟨h1.1, length_eq_of_substA_eq σ h1.2⟩
+    · -- other
+      rename_i hvv hvt htv happ
+      clear helim
+      split
+      · rename_i hst; subst hst
+        have ih := unifyE_complete f rest
+        exact ⟨fun δ h σ hu u => ih.1 δ h σ (hhead hu).2 u, fun h σ hu => ih.2 h σ (hhead hu).2⟩
+      · rename_i hst
+        refine ⟨fun δ h => (by cases h), ?_⟩
+        intro _ σ hu
+        have h1 := (hhead hu).1
+        apply hst
+        cases a with
+        | app g as =>
+          cases b with
+          | app g' bs => exact (happ g as g' bs rfl rfl).elim
+          | var v => simp_all
+          | atom _ => simp [substT] at h1
+          | int _ => simp [substT] at h1
+          | flt _ => simp [substT] at h1
+          | str _ => simp [substT] at h1
+        | var v => simp_all
+        | atom _ => cases b <;> simp_all [substT]
+        | int _ => cases b <;> simp_all [substT]
+        | flt _ => cases b <;> simp_all [substT]
+        | str _ => cases b <;> simp_all [substT]
+
 /-! ### SLD resolution is sound -/
 
 /-- the renamed clause is valid in the interpretation `I`: every instance of the head holds if the
